@@ -316,7 +316,8 @@ func c04Stream(cx *Ctx, N int) {
 			c := v1.NewOperatorClaims(opk)
 			fillCD(&c.ClaimsData)
 			c.SigningKeys = v1.StringList(rl())
-			c.AccountServerURL = []string{"", "http://a.b", "nats://x"}[rng.Intn(3)]
+			// what the version-1 encoder accepts (anything that parses and has a scheme), host or no host
+			c.AccountServerURL = []string{"", "http://a.b", "nats://x", "file:///var/lib/nats/jwt/v1", "mem:accounts", "http:///jwt/v1", "https://:9090/jwt/v1", "HTTPS://H.example/a?b=c"}[rng.Intn(8)]
 			c.OperatorServiceURLs = v1.StringList(rl())
 			c.SystemAccount = rs()
 			if someB() {
@@ -340,6 +341,19 @@ func c04Stream(cx *Ctx, N int) {
 			chkCD("operator", &c.ClaimsData, &o.ClaimsData, &o.GenericFields)
 			chk(eqS(c.SigningKeys, o.SigningKeys) && c.AccountServerURL == o.AccountServerURL && eqS(c.OperatorServiceURLs, o.OperatorServiceURLs) && c.SystemAccount == o.SystemAccount, "operator: fields")
 			chk(o.AssertServerVersion == "" && !o.StrictSigningKeyUsage, "operator: v2-only zero")
+			// what version 1 encoded, version 2 can encode again, to the same content
+			tok2, err := o.Encode(okp)
+			if err != nil {
+				cx.Violate("migration", "operator: re-encode err "+err.Error(), map[string]string{"v1_token": c04tok})
+				continue
+			}
+			o2, err := jwt.DecodeOperatorClaims(tok2)
+			if err != nil {
+				cx.Violate("migration", "operator: re-decode err", map[string]string{"v1_token": c04tok})
+				continue
+			}
+			chk(o2.Version == 2, "operator: re-encoded version 2")
+			chk(eqS(o.SigningKeys, o2.SigningKeys) && o.AccountServerURL == o2.AccountServerURL && eqS(o.OperatorServiceURLs, o2.OperatorServiceURLs) && o.SystemAccount == o2.SystemAccount && o.Subject == o2.Subject && o.Name == o2.Name, "operator: re-encode stable")
 		case 3: // activation
 			c := v1.NewActivationClaims(apk)
 			fillCD(&c.ClaimsData)
